@@ -269,17 +269,39 @@ TASKS = [
     Task("mustfail", mustfail, sc.session_cfg(), [], expect_refuted=True),
 ]
 
+# what the statement rests on outside send_msg / encode, decided in the same run from the same tree:
+#   "can be read back from the journal under that number" / "stored next-outbound number"  -> Journaler.persist_msg and
+#       find_seq_no on the SQL bodies (C13 clauses), their refinement to the abstract journal used above, and the
+#       crash-consistency clauses of C08 (a stored message with its counter is durable when the call returns)
+#   a transport fault between write() and drain() (A-IO dropped)                          -> C09's fault task of send_msg
+#   inbound traffic that itself causes sends: a served ResendRequest leaves stored = live  -> C09's sync[process_resend]
+import shared_tasks as _st  # noqa: E402
+SHARED = _st.journal_tasks(ops=("persist_msg",), find_seq_no=True, direction="OUTBOUND") + \
+    _st.from_module("C09_restart", ("crash[send_msg,transport_fault]", "sync[process_resend]"), "C09")
+TASKS[-1:-1] = SHARED
+# A-IND: the induction step of "exactly one greater than the previous new message ... stored = last sent + 1" from
+# the clause terms of send_msg proved above (history_lemmas.py)
+_lem = Task("lemma[history]", lambda I: __import__("history_lemmas").c05_history_lemma(I), Config, [])
+_lem.cover = False
+TASKS.insert(len(TASKS) - 1, _lem)
+
 PROPERTY = Property(
     "C05", TASKS,
     assumptions=[
-        "A-IND: the history statement follows from the per-call clauses by induction over the history (not mechanised); "
+        "A-IND: the history statement follows from the per-call clauses by induction over the history: the induction "
+        "step is discharged by z3 from the proved clause terms (task lemma[history]: trace invariant 'last new number = "
+        "next outbound number - 1 = stored counter'), that a history is a sequence of such steps is by reading plus the "
+        "call-site scans; "
         "the invariant Inv (counters >= 1, stored = live - 1, no journal row at or above the live counters, writer "
         "present in connected states) is assumed in the pre-state and re-established on every accepting path",
         "Journaler.persist_msg behaves as its abstract contract (stored under find_seq_no(bytes), DuplicateSeqNoError and "
-        "no change when present) - an unchecked assumption: the C13 check of the SQL body is not built; find_seq_no(utf8(encode(m))) is the number chosen by "
+        "no change when present) - a consequence of the clauses proved on the SQL body (tasks journal.persist_msg, "
+        "journal.refinement[persist_msg], journal.persist_msg[durable] of this run; A-SQL / A-SQLTX as in C13 / C08); "
+        "find_seq_no(utf8(encode(m))) is the number chosen by "
         "encode (frame view) - the header layout part is proved here (seqno.field34_is_chosen_number)",
         "A-HOOK: on_state_change does not touch connection, session or journal state and does not raise",
-        "A-IO: StreamWriter.write/drain do not raise; A-LOG: logging is effect free",
+        "A-IO: StreamWriter.write/drain do not raise in the send_msg task; a fault raised by drain() after the frame was "
+        "handed over is the task crash[send_msg,transport_fault]; A-LOG: logging is effect free",
         "int() of peer text is an uninterpreted partial function (sound over-approximation of CPython)",
     ],
     trusted_base=["pyvc", "z3 5.1.0", "append-only loop rule (syntactic frame scan of the tag loop and of Codec._addTag)"],
